@@ -125,6 +125,56 @@ def recoverOp (args : List String) : String :=
     s!"calls=[{calls}] outcome={out}"
   | _ => "bad-op"
 
+def parseKind (s : String) : StreamKind :=
+  match s with
+  | "unary" => .unary | "client" => .client | "server" => .server | _ => .bidi
+
+def kindNum : StreamKind → Nat
+  | .unary => 0 | .client => 1 | .server => 2 | .bidi => 3
+
+def protoName : Proto → String
+  | .connect => "connect" | .grpc => "grpc" | .grpcWeb => "grpcweb"
+
+def parseProto (s : String) : Proto :=
+  match s with
+  | "connect" => .connect | "grpc" => .grpc | _ => .grpcWeb
+
+def namesArg (s : String) : List Bytes := if s == "" then [] else (s.splitOn ",").map str
+
+def bytesToString (b : Bytes) : String := String.ofList (b.map fun c => Char.ofNat c.toNat)
+
+def dispOp (args : List String) : String :=
+  match kv args "kind", kv args "codecs", (kv args "major").bind String.toNat?, (kv args "method").bind hexArg,
+        (kv args "ct").bind hexArg, (kv args "procedure").bind hexArg with
+  | some kind, some codecs, some major, some method, some ct, some proc =>
+    let cfg : HandlerCfg := { kind := parseKind kind, codecs := namesArg codecs, handleGRPC := true, handleGRPCWeb := true }
+    match dispatch cfg major method ct with
+    | .httpVersionNotSupported => "505"
+    | .methodNotAllowed => "405 allow=POST"
+    | .unsupportedMediaType ap => "415 accept=" ++ hexOut ((ap.intersperse (str ", ")).flatten)
+    | .serve p c => s!"run proto={protoName p} codec={bytesToString c} ran=1/1 spec={hexOut (extractProtoPath proc)}:{kindNum cfg.kind}"
+  | _, _, _, _, _, _ => "bad-op"
+
+def negOp (args : List String) : String :=
+  match kv args "reg", (kv args "sent").bind hexArg, (kv args "accept").bind hexArg with
+  | some reg, some sent, some accept =>
+    let r := namesArg reg
+    let names := bytesToString (joinComma (advertisedNames r))
+    match negotiate r sent accept with
+    | .ok _ resp => s!"ok resp={bytesToString resp} names={names}"
+    | .unimplemented sup => s!"unimplemented names={bytesToString sup}"
+  | _, _, _ => "bad-op"
+
+def cminOp (args : List String) : String :=
+  match kv args "pool", (kv args "min").bind String.toInt?, (kv args "size").bind String.toNat? with
+  | some pool, some min, some size =>
+    let data : Bytes := List.replicate size 65
+    let wire := envWrite (if pool == "1" then some rleCompressor else none) min 0 data
+    match wire with
+    | fl :: _ => s!"compressed={fl.toNat % 2}"
+    | [] => "bad-op"
+  | _, _, _ => "bad-op"
+
 def step (line : String) : String :=
   match (line.trimAscii.toString.splitOn " ") with
   | ["code.str", n] => match n.toNat? with
@@ -184,6 +234,15 @@ def step (line : String) : String :=
     | _, _, _ => "bad-op"
   | "env.recv" :: args => envRecvOp args
   | "env.write" :: args => envWriteOp args
+  | "disp" :: args => dispOp args
+  | ["path", h] => match hexArg h with
+    | some b => hexOut (extractProtoPath b)
+    | none => "bad-op"
+  | ["cpath", h] => match hexArg h with
+    | some b => hexOut (extractProtoPath b)
+    | none => "bad-op"
+  | "neg" :: args => negOp args
+  | "cmin" :: args => cminOp args
   | "icpt" :: args => icptOp args
   | "recover" :: args => recoverOp args
   | ["canary"] => "canary-model"
